@@ -85,7 +85,6 @@ func stripPos(m string) string {
 }
 
 var reIndexBounds = regexp.MustCompile(`index (\d+) out of bounds \[0:(\d+)\]`)
-var reZeroShift = regexp.MustCompile(`\b0 << [5-9][0-9][0-9]\b`)
 
 // knownSignature maps a disagreement to the name of a recorded finding.
 func knownSignature(dir, src, scriggoMsg, goMsg string) string {
@@ -96,8 +95,6 @@ func knownSignature(dir, src, scriggoMsg, goMsg string) string {
 		if m := reIndexBounds.FindStringSubmatch(goMsg); m[1] == m[2] {
 			return "const-index-eq-len-accepted"
 		}
-	case dir == "rejects-well-typed" && strings.Contains(scriggoMsg, "shift count too large") && reZeroShift.MatchString(src):
-		return "const-zero-shift-count-512"
 	}
 	return ""
 }
@@ -148,8 +145,6 @@ func judge(c *Ctx, src string, std bool, origin string, extra map[string]string)
 var reproducers = []struct{ sig, src string }{
 	{"float-div-const-zero", "package main\n\nfunc main() {\n\tf := 1.5\n\t_ = f / 0.0\n}\n"},
 	{"const-index-eq-len-accepted", "package main\n\nfunc main() {\n\tvar a [3]int\n\t_ = a[3]\n}\n"},
-	{"const-shift-count-over-1074", "package main\n\nfunc main() {\n\t_ = 4 >> 6400\n}\n"},
-	{"const-zero-shift-count-512", "package main\n\nconst c = 0 << 600\n\nfunc main() {\n\t_ = c\n}\n"},
 }
 
 // regressions: inputs of the defects repaired by fix commits of this work
@@ -173,6 +168,11 @@ var regressions = []string{
 	"package main\n\ntype T3 bool\n\nfunc main() {\n\tvar x bool = false || T3(false)\n\t_ = x\n}\n",
 	"package main\n\nfunc main() {\n\tx := 2.0 << 5\n\t_ = ^x\n}\n",
 	"package main\n\nfunc main() {\n\tx := 2.0 << 5\n\tvar y float64 = x\n\t_ = y\n}\n",
+	"package main\n\nfunc main() {\n\t_ = 4 >> 6400\n}\n", // const-shift-count-over-1074 (repaired by the consts package: fix d3683c7)
+	"package main\n\nfunc main() {\n\t_ = 4 >> 1074\n\t_ = 4 >> 1075\n}\n",
+	"package main\n\nconst c = 0 << 600\n\nfunc main() {\n\t_ = c\n}\n", // const-zero-shift-count-512 (repaired by the consts package: fix d3683c7)
+	"package main\n\nconst c = 0 << 1075\n\nfunc main() {\n\t_ = c\n}\n",
+	"package main\n\nconst c = 1 << 512\n\nfunc main() {\n\t_ = c >> 500\n}\n",
 }
 
 // regressionsStd: like regressions, judged with the standard library packages.
